@@ -693,7 +693,55 @@ func runFresh(c *core.Ctx) {
 	}, func(f fcase) string { return f.src() }, func(f fcase, o panrun.Obs) { judgeFresh(c, f, o) })
 }
 
+// The arguments given by `new` / `recur` are the arguments the body is evaluated with - exactly those, whatever their
+// number and type (a single array for an iterator of several parameters stays one argument, missing ones are nil).
+func runArgs(c *core.Ctx) {
+	type ac struct{ src, want string }
+	var cases []ac
+	gens := []struct{ params, yield string }{{"v, n", "[v, n]"}, {"v", "[v]"}, {"v, n, m", "[v, n, m]"}, {"v, k: 9", "[v, k]"}}
+	args := []struct{ a, bound2, bound1, bound3, boundK string }{
+		{"[1, 2]", "[[1, 2], nil]", "[[1, 2]]", "[[1, 2], nil, nil]", "[[1, 2], 9]"},
+		{"[1, 2], 3", "[[1, 2], 3]", "[[1, 2]]", "[[1, 2], 3, nil]", "[[1, 2], 9]"},
+		{"[[7, 8]]", "[[[7, 8]], nil]", "[[[7, 8]]]", "[[[7, 8]], nil, nil]", "[[[7, 8]], 9]"},
+		{"[]", "[[], nil]", "[[]]", "[[], nil, nil]", "[[], 9]"},
+		{"5", "[5, nil]", "[5]", "[5, nil, nil]", "[5, 9]"},
+		{"{a: 1}", "[{\"a\": 1}, nil]", "[{\"a\": 1}]", "[{\"a\": 1}, nil, nil]", "[{\"a\": 1}, 9]"},
+		{"*[1, 2]", "[1, 2]", "[1]", "[1, 2, nil]", "[1, 9]"},
+	}
+	for gi, g := range gens {
+		for _, a := range args {
+			want := []string{a.bound2, a.bound1, a.bound3, a.boundK}[gi]
+			lit := "<{|" + g.params + "| yield " + g.yield + "}>"
+			cases = append(cases, ac{lit + ".new(" + a.a + ").next", want})
+			cases = append(cases, ac{"it := " + lit + ".new(" + a.a + ")\n[it.next, it.next]", "[" + want + ", " + want + "]"})
+			cases = append(cases, ac{"g := " + lit + "\ng.new(0).new(" + a.a + ").next", want})
+			// the same arguments given by recur: the first step yields the start arguments, the second what recur gave
+			rl := "<{|" + g.params + "| yield " + g.yield + "; recur(" + a.a + ")}>"
+			cases = append(cases, ac{"it := " + rl + ".new(0)\nit.next\nit.next", want})
+			cases = append(cases, ac{"it := " + rl + ".new(0)\nit.next\n[it.next, it.next]", "[" + want + ", " + want + "]"})
+		}
+	}
+	tk.Batched(c, 100, "", func(emit func(int)) {
+		for i := range cases {
+			emit(i)
+		}
+	}, func(i int) string { return cases[i].src }, func(i int, o panrun.Obs) {
+		c.Validated(1)
+		c.Nontrivial(1)
+		c.Outcome("args:" + o.Kind)
+		if o.Kind == "syntax" {
+			c.HarnessError("argument program does not parse: %s: %s", cases[i].src, o.ErrMsg)
+			return
+		}
+		if o.Kind == "value" && o.Repr == cases[i].want {
+			return
+		}
+		c.Violation(core.Violation{Key: "arguments-of-new-or-recur-not-bound-as-given", Case: core.JSON(fcase{Mode: "args", Gen: i}), Desc: strings.ReplaceAll(cases[i].src, "\n", "; "), Expected: cases[i].want, Observed: o.Short(), Repro: "(" + strings.ReplaceAll(cases[i].src, "\n", "; ") + ").p\n"})
+	})
+}
+
 func run(c *core.Ctx) {
+	runArgs(c)
 	runFresh(c)
 	runFactory(c)
 	runCross(c)
@@ -721,6 +769,10 @@ func run(c *core.Ctx) {
 
 func replay(c *core.Ctx, raw json.RawMessage) {
 	var f fcase
+	if json.Unmarshal(raw, &f) == nil && f.Mode == "args" {
+		runArgs(c)
+		return
+	}
 	if json.Unmarshal(raw, &f) == nil && f.Mode == "cross" {
 		obs := c.R().Thunks("", []string{f.crossSrc()}, "")
 		c.Eval(1)
